@@ -115,7 +115,7 @@ def c03(tier):
 
 
 def _simple(prop, P, nq, nt, mc=True):
-  def check(tier):
+  def check(tier, finish=True):
     run = common.Run(prop, tier, "model_checking")
     run.assumptions += ASSUME_SEQ
     with cf.ThreadPoolExecutor(2) as ex:
@@ -123,15 +123,51 @@ def _simple(prop, P, nq, nt, mc=True):
       seqcheck.run(run, prop, nq if tier == "quick" else nt, P)
       if f:
         f.result()
-    return run.finish()
+    return run.finish() if finish else run
   return check
 
 
 QOPS = dict(step=40, dispatch=0, post=25, defer=10, recall=10, is_in=2, child=1, scribble=3, clear_spy=1, clear_trace=1, empty_rtc=8)
 c14 = _simple("C14", gen.profile(hosts=(("queued", 1),), p_eff=0.5, live=0.0, clocks=("fine",), nops=(6, 16), w_ops=dict(QOPS, circuit=10),
                                  caps=(2, 3, 500), p_fault=0.15), 2500, 20000)
-c15 = _simple("C15", gen.profile(hosts=(("queued", 1),), p_eff=0.5, live=0.0, clocks=("fine",), nops=(6, 16),
-                                 w_ops=dict(QOPS, defer=25, recall=25), caps=(2, 3, 500), p_fault=0.1), 2500, 20000)
+_c15_ids = _simple("C15", gen.profile(hosts=(("queued", 1),), p_eff=0.5, live=0.0, clocks=("fine",), nops=(6, 16),
+                                      w_ops=dict(QOPS, defer=25, recall=25), caps=(2, 3, 500), p_fault=0.1), 2500, 20000)
+
+
+def defer_instances(run, n):
+  """the same Event OBJECTS deferred / posted again and again (DeferInstTrace.tla): Hsm.tla gives every deferral an event of its own"""
+  import json, os
+  import multiprocessing as mp
+  from harness import deferinst, tlc
+  chunk = (n + 31) // 32
+  with mp.get_context("fork").Pool(8) as pool:
+    traces = [t for part in pool.map(deferinst.work, [(common.seed(), lo, min(n, lo + chunk)) for lo in range(0, n, chunk)]) for t in part]
+  path = os.path.join(common.work_dir(), "deferinst.ndjson")
+  with open(path, "w") as f:
+    for t in traces:
+      f.write(json.dumps(t) + "\n")
+  r = tlc.run("DeferInstTrace.tla", "SPECIFICATION TSpec\nINVARIANT Conserved\nCHECK_DEADLOCK FALSE\n", workers="auto", env={"TRACE_FILE": path}, timeout=1800)
+  os.unlink(path)
+  if not r.ok or r.violated:
+    raise common.MachineryError("DeferInstTrace failed: %s %s" % (r.violated, r.error))
+  v = {p["tid"]: p for p in r.printed if isinstance(p, dict) and "tid" in p}
+  for t in traces:
+    x = v.get(t["tid"])
+    if x is None:
+      raise common.MachineryError("defer/recall instance sequence %d not consumed by DeferInstTrace" % t["tid"])
+    if "bad" in x:
+      op = t["ops"][x["at"] - 1]
+      run.violation("inst:%s@%s" % ("+".join(sorted(x["bad"])), op[0]),
+                    "defer/recall with re-used Event objects, op %d %s: %s" % (x["at"], op, x["bad"]), {"instances": True, "ops": t["ops"], "verdict": x})
+  run.add(states=r.distinct, transitions=r.generated, instance_level_sequences_validated=len(traces),
+          instance_level_ops_validated=sum(len(t["ops"]) for t in traces),
+          instance_level_distinct=len({json.dumps([o[:2] for o in t["ops"]]) for t in traces}))
+
+
+def c15(tier):
+  run = _c15_ids(tier, finish=False)
+  defer_instances(run, 3000 if tier == "quick" else 40000)
+  return run.finish()
 c19 = _simple("C19", gen.profile(hosts=(("queued", 6), ("instr", 2)), p_spied=1.0, p_eff=0.5, live=0.0, clocks=("fine",),
                                  nops=(4, 14), w_ops=dict(QOPS, dispatch=8, scribble=8, is_in=5, child=3)), 2500, 20000)
 c20 = _simple("C20", gen.profile(hosts=(("queued", 6), ("instr", 2)), p_spied=1.0, p_eff=0.3, live=0.0, clocks=("fine",),
